@@ -180,10 +180,9 @@ func RunProg(pc *ProgCase) (out *ProgOutcome) {
 	fail := func(step int, d *Divergence) *ProgOutcome {
 		d.Step = step
 		if d.Diag {
-			if out.Diag == nil {
-				out.Diag = d
-			}
-			return nil
+			// the case ends here, as a diagnostic only
+			out.Diag = d
+			return out
 		}
 		out.Div = d
 		return out
